@@ -113,13 +113,23 @@ fn check(obs: &Obs, sent: &[Sent], rep: &mut Report, desc: &dyn Fn() -> J) {
 /// `prefix_ok`: a transient transport error was injected; if run_on gave up with an error, what
 /// reached the shim before must still be a verbatim prefix of what the client framed.
 fn check_with(obs: &Obs, sent: &[Sent], rep: &mut Report, desc: &dyn Fn() -> J, prefix_ok: bool) {
+    check_full(obs, sent, rep, desc, prefix_ok, false)
+}
+
+/// `refused_tail`: behind the commands of `sent` the client framed a statement that is not UTF-8 and
+/// one more command: everything in `sent` is delivered, nothing else is, and run_on reports an error.
+fn check_full(obs: &Obs, sent: &[Sent], rep: &mut Report, desc: &dyn Fn() -> J, prefix_ok: bool, refused_tail: bool) {
     if harness_panic(obs, rep) {
         return;
     }
     let got: Vec<&Cb> = obs.log.cbs.iter().filter(|c| !matches!(c.kind, CbKind::Auth { .. })).collect();
     let mut bad: Option<(String, String)> = None;
     let gave_up = prefix_ok && obs.outcome.is_err();
-    if !matches!(obs.outcome, Outcome::Ok) && !gave_up {
+    if refused_tail {
+        if !obs.outcome.is_err() {
+            bad = Some(("non-utf8-statement-accepted".into(), format!("a statement whose text is not UTF-8 cannot reach a &str callback unaltered; run_on returned {}", obs.outcome.describe())));
+        }
+    } else if !matches!(obs.outcome, Outcome::Ok) && !gave_up {
         bad = Some(("run_on-not-ok".into(), format!("run_on returned {} for a well-formed stream", obs.outcome.describe())));
     }
     if bad.is_none() {
@@ -191,16 +201,48 @@ pub fn run(ctx: &Ctx) -> Report {
         let lens: Vec<usize> = (0..ncmd).map(|_| if ctx.miri { rng.range(1, 40) as usize } else { pick_len(rng) }).collect();
         let (cmds, scripts, sent) = build(ctx.seed ^ i, &lens, rng);
         let mut case = Case::new(cmds, scripts);
-        if rng.chance(1, 4) {
+        // a twelfth of the cases end with a statement whose text is not UTF-8 (latin1 text, a
+        // character cut short at the very end, binary data in a literal): it cannot be delivered
+        // byte for byte as the &str the callbacks take, so it is not delivered at all - the
+        // connection ends with an error, and neither it nor the command behind it reaches the shim
+        let refused_tail = !ctx.miri && i % 12 == 7;
+        if refused_tail {
+            let mut t = Vec::new();
+            stream_fill(&mut t, ctx.seed ^ i, 777, rng.range(0, 40) as usize, true);
+            let bad: &[u8] = *rng.pick(&[&b"caf\xe9"[..], b"\xc3", b"\xe2\x82", b"\xf0\x9f\xa6", b"\xff\xff\xff\x01\x00\xfe", b"'\x80'", b"\xed\xa0\x80", b"\xc0\xaf"]);
+            match rng.below(3) {
+                0 => t.extend_from_slice(bad),
+                1 => {
+                    let at = rng.usize(t.len() + 1);
+                    let tail = t.split_off(at);
+                    t.extend_from_slice(bad);
+                    t.extend_from_slice(&tail);
+                }
+                _ => {
+                    // only the last bytes are at fault, after a run of plain ASCII of any length mod 8
+                    let pad = rng.below(17) as usize;
+                    t.extend(std::iter::repeat(b'x').take(pad));
+                    t.extend_from_slice(bad);
+                }
+            }
+            if std::str::from_utf8(&t).is_err() {
+                case.cmds.push(if rng.bool() { Cmd::query(&t) } else { Cmd::prepare(&t) });
+                case.cmds.push(Cmd::query(b"behind the refused statement"));
+                case.scripts.push(Script::Q(QProg::completed(1, 1)));
+                case.scripts.push(Script::Q(QProg::completed(2, 2)));
+                rep.counters.inc("cases_ending_with_a_non_utf8_statement");
+            }
+        } else if rng.chance(1, 4) {
             case.cmds.push(Cmd::quit());
         }
+        let refused_tail = refused_tail && case.cmds.len() > sent.len() + 1;
         let (input, _) = case.input();
         let sk = SCHED_KINDS[(i % 7) as usize];
         // 1-byte reads over long inputs are quadratic in the real parser; cap them
         let sk = if matches!(sk, SchedKind::OneByte | SchedKind::Fixed) && input.len() > 20_000 { SchedKind::Random } else { sk };
         case.sched = make_sched(rng, sk, &input);
         // a fifth of the cases: one transient Interrupted / WouldBlock / TimedOut on a random operation
-        let transient = !ctx.miri && i % 5 == 3;
+        let transient = !ctx.miri && i % 5 == 3 && !refused_tail;
         if transient {
             let dry = run_case(&case);
             case.fault.err_at = Some(rng.below(dry.world.nops.max(1)));
@@ -226,7 +268,7 @@ pub fn run(ctx: &Ctx) -> Report {
         if i < 3 {
             rep.sample(d());
         }
-        check_with(&obs, &sent, rep, &d, transient);
+        check_full(&obs, &sent, rep, &d, transient, refused_tail);
     });
     rep.merge(r);
 
